@@ -34,6 +34,11 @@ def u_R(k):
     return np.array([[1, 0], [0, 1j ** (int(k) % 4)]], dtype=complex)
 
 
+def u_Pf(t):
+    # the same phase gate with a REAL parameter: diag(1, exp(i pi t / 2)); equals u_R for integral t
+    return np.array([[1, 0], [0, np.exp(0.5j * np.pi * float(t))]], dtype=complex)
+
+
 def u_CX():
     return _perm(2, lambda b: [b[0], b[1] ^ b[0]])
 
@@ -67,7 +72,7 @@ def active_gates():
         GateDefinition('S', [P('q', Q)], ideal_unitary=u_S),
         GateDefinition('N', [P('q', Q)]),
         GateDefinition('R', [P('q', Q), P('k', I)], ideal_unitary=u_R),
-        GateDefinition('Pf', [P('q', Q), P('t', FL)], ideal_unitary=u_R),
+        GateDefinition('Pf', [P('q', Q), P('t', FL)], ideal_unitary=u_Pf),
         GateDefinition('CX', [P('c', Q), P('t', Q)], ideal_unitary=u_CX),
         GateDefinition('SW', [P('a', Q), P('b', Q)], ideal_unitary=u_SW),
         GateDefinition('CR', [P('c', Q), P('t', Q), P('k', I)], ideal_unitary=u_CR),
